@@ -199,6 +199,43 @@ func H_clear_incr_clear_incr() {
 `)
 	fam.Instances = append(fam.Instances, Instance{Func: "H_clear_full_incr_remove", Stratum: "sequence", Desc: "clear, full update, incremental update, removal", Expect: []string{"executed"}},
 		Instance{Func: "H_clear_incr_clear_incr", Stratum: "sequence", Desc: "clear, incremental update, clear twice, incremental update", Expect: []string{"executed"}})
+	// a six-rule pool (saliences 10..5) and an incremental update with a symbolic salience: the
+	// insertion position comes from a binary search with several probes
+	for _, v := range []struct{ id, name, desc string }{
+		{"six_add", "x", "a seventh rule added"},
+		{"six_move", "c", "the third rule re-submitted with another salience"},
+	} {
+		name := "H_" + v.id
+		fmt.Fprintf(&b, `
+// six-rule pool, %s with a symbolic salience
+func %s() {
+	sals := map[string]int64{"a": 10, "b": 9, "c": 8, "d": 7, "e": 6, "f": 5}
+	text := ""
+	for _, n := range []string{"a", "b", "c", "d", "e", "f"} {
+		text += zzRule(n, 1, strconv.Itoa(int(sals[n])))
+	}
+	gp, e := NewGenginePool(1, 2, SortModel, text, zzApis())
+	zzMust(e, "pool construction")
+	q := vnd.Int64("q")
+	zzMust(gp.UpdatePooledRulesIncremental(zzRule(%q, 2, vnd.SalText(q))), "incremental update")
+	sals[%q] = q
+	vnd.Assert(gp.GetRulesNumber() == len(sals), "the rule count query agrees with the denoted set")
+	sq, e1 := gp.GetRuleSalience(%q)
+	vnd.Assert(e1 == nil && sq == q, "the salience query answers the current salience")
+	for which := 0; which < 2; which++ {
+		got, err, _ := zzRunOn(gp, which)
+		vnd.Assert(err == nil, "the execution succeeds")
+		vnd.Assert(len(got) == len(sals) && len(zzRunOrder) == len(sals), "an execution on every instance runs exactly the denoted set")
+		vnd.Assert(got[%q] == 2, "the new version runs")
+		for k := 0; k+1 < len(zzRunOrder); k++ {
+			vnd.Assert(sals[zzRunOrder[k]] >= sals[zzRunOrder[k+1]], "sorted by the current saliences")
+		}
+	}
+	vnd.Reach("executed")
+}
+`, v.desc, name, v.name, v.name, v.name, v.name)
+		fam.Instances = append(fam.Instances, Instance{Func: name, Stratum: "larger-set", Desc: "six-rule pool, " + v.desc, Expect: []string{"executed"}})
+	}
 	// after a model change the *SpecifiedEM entry points follow the new model
 	for m := 1; m <= 4; m++ {
 		for _, ep := range []struct{ id, call string }{
